@@ -510,6 +510,14 @@ pub fn gen(prop: &str, tier: &str, seed: u64) -> Vec<String> {
                 fam_cross("pushc", win, &dsmall, &args, &mut out);
                 fam_cross("setfn", win, &dsmall, &args, &mut out);
             }
+            // Spec/Utf8.lean (validB) against core::str::from_utf8: every byte string over a
+            // boundary alphabet (all lead / continuation class edges), and the UTF-8 domain
+            for s in strings_b(b"\x00\x7f\x80\x8f\x90\x9f\xa0\xbf\xc0\xc1\xc2\xdf\xe0\xe1\xec\xed\xee\xef\xf0\xf1\xf3\xf4\xf5\xff", if t { 4 } else { 3 }) {
+                out.push(format!("stdutf8 {}", hex(&s)));
+            }
+            for s in d.iter() {
+                out.push(format!("stdutf8 {}", hex(s)));
+            }
             out.push(format!("conv u w {}", hex("é/日".as_bytes())));
             for s in d.iter().step_by(3) {
                 out.push(format!("conv u w {}", hex(s)));
